@@ -386,7 +386,9 @@ def run_coq_cases(tag, mods, items, timeout=1200, preamble=""):
     """items: list of (key, gallina_expr); evaluates each with vm_compute; returns {key: printed value}"""
     d = os.path.join(BUILD, "cases", tag)
     os.makedirs(d, exist_ok=True)
-    shards = chunks(items, NPROC)
+    # at most 300 cases per file (and at least NPROC files): many short coqc runs balance better over the cores than NPROC
+    # long ones, and none of them comes near the per-file time limit when the machine is shared with other runs
+    shards = chunks(items, max(NPROC, (len(items) + 299) // 300))
 
     def one(i):
         fn = os.path.join(d, f"cases_{i}.v")
